@@ -593,14 +593,17 @@ func Judge(sc *Scenario, tr *Trace) ([]pbt.Violation, Stats) {
 			justified := !subset(fq, fp) || (sr && !subset(rq, rp)) || a.Flush.Sub(prev.Done) > a.Repeat || a.Flush.Sub(prev.Done) > expiry
 			if !justified {
 				rt, members := m.GroupMembers(cfg, a.RouteID, a.GroupKey)
-				empty := m.Sometime(prev.Done, a.Flush, func(t time.Time) bool {
+				none := func(t time.Time) bool {
 					for _, mk := range members {
 						if m.Eligible(mk, rt, t) {
 							return false
 						}
 					}
 					return true
-				})
+				}
+				// ... at some instant since the previous delivery, the flush instant included (a flush that starts
+				// the moment a slow delivery of the previous one returns decides at that very instant)
+				empty := m.Sometime(prev.Done, a.Flush, none) || none(a.Flush) || none(a.Flush.Add(-time.Nanosecond))
 				// a reload in between creates a new dispatcher; the log persists, so it does not justify by itself
 				if !empty {
 					add(pbt.V("unjustified-notification", "%v: notification at %s (firing %v resolved %v, reason %q) follows the one delivered at %s (firing %v resolved %v) without new firing/resolved alerts, %s <= repeat_interval %s, and the group always had an eligible firing alert", k, a.Tick.Format(tf), keysOf(fq), keysOf(rq), a.Reason, prev.Done.Format(tf), keysOf(fp), keysOf(rp), a.Tick.Sub(prev.Done), a.Repeat))
